@@ -176,6 +176,12 @@ impl Tree {
 		Ok(before != self.verif_level_shape())
 	}
 
+	/// The store's logical clock (the one commit timestamps and retention ages are taken
+	/// from). Strictly monotonic: it can run ahead of the system clock when that stands still.
+	pub fn verif_clock_now(&self) -> u64 {
+		self.core.inner.opts.clock.now()
+	}
+
 	/// The visibility horizon.
 	pub fn verif_visible_seq(&self) -> u64 {
 		self.core.seq_num()
